@@ -24,7 +24,7 @@ MinCnt == -1
 MaxCnt == 2
 
 VARIABLES rid,    \* which recipe
-          hist    \* per input token: [st |-> loop state after it, n |-> Len(out) after it]
+          hist    \* per input token: [st |-> loop state after it, n |-> Len(out) after it, b |-> branch taken]
 vars == <<pol, st, inp, out, rid, hist>>
 
 Recipes  == Fam.recipes
@@ -49,7 +49,8 @@ Next == /\ Len(inp) < MaxLen
         /\ \E tok \in Alphabet :
               /\ Realisable(inp, tok)
               /\ Feed(Mark(tok, Len(inp) + 1))
-              /\ hist' = Append(hist, [st |-> st', n |-> Len(out')])
+              /\ hist' = Append(hist, [st |-> st', n |-> Len(out'),
+                                       b |-> Branch(pol, st, Mark(tok, Len(inp) + 1), After(pol, Mark(tok, Len(inp) + 1)))])
         /\ UNCHANGED rid
 
 Spec == Init /\ [][Next]_vars
